@@ -8,7 +8,7 @@ SLOW_ENGINES = (":pure-lookahead", ":picky", ":ghost-vars")
 
 def opensmt_timeout(script, tier):
     if any(k in SLOW_ENGINES for k, _ in script["options"]):
-        return 4.0
+        return 3.0
     return 10.0 if tier == "quick" else 20.0
 
 
